@@ -92,6 +92,8 @@ def gen_cases(rng, n):
 
 
 def main():
+    import astlib
+    astlib.AUTO_FUNCS = 0.2       # sqrt exp ln log pow at exact points in a fifth of the generated formulas
     rep = core.Report("C12")
     quick = core.tier() == "quick"
     import c02 as _c02
